@@ -10,6 +10,12 @@ CHECKS = {
  "C09": dict(cat="exploration", tech="differential replicas: byte-comparison of marshalled ABCI responses and canonical state across in-process replicas and across OS processes",
    text="Real app.ShutterApp replicas execute identical generated histories (random walks incl. walks targeted at vote ties / validator churn, dedup-BFS over a 19-symbol alphabet); every response (Log/Info excluded) and the canonical state must be byte-identical per call. Holds on the histories executed; map-order dependence is detected probabilistically (2^-(R-1) miss per occurrence, thousands of occurrences).",
    note=TB_APP, ref="§3 C09"),
+ "C10": dict(cat="exploration", tech="panic guard + process journal around hostile CheckTx/DeliverTx; twin-run (hyperproperty) comparison of observable outputs with/without an injected refused transaction",
+   text="Hostile transactions (malformed envelopes, structurally invalid payloads of every message type in valid envelopes, wrong chain, replays, outsiders) are injected at many positions of generated histories of the real app under a panic guard with code assertions; twin runs H vs H+X must agree on every observable output, including histories where the outsider later joins a keyper set. Held on the injections executed.",
+   note=TB_APP, ref="§3 C10"),
+ "C11": dict(cat="exploration", tech="online trace monitor (independent governance tally) over the real app's transaction/response log",
+   text="An independent monitor re-derives vote tallies from the transaction log and asserts I1-I6 (threshold of distinct current members for the identical config, one vote per round, (sender,nonce) at most once, eon numbers fresh and increasing, restarts only for the newest eon after threshold failure votes, config start only after threshold block-seen reports) after every DeliverTx/EndBlock of generated histories. Only-if directions only.",
+   note=TB_APP + "; refimpl.Governance", ref="§3 C11"),
 }
 
 NOT_APPLICABLE = {
